@@ -25,6 +25,13 @@
 (*   backward are only bounded: max term <= sum <= S^T * max term, in exponent  *)
 (*   form  ClosedExp - T*ceil(log2 S) <= k <= ClosedExp (+1 for a mantissa      *)
 (*   rounded up to 2).                                                          *)
+(* run.cfg.cls = "dec": closed-form decoupled-chains family (k chains, only the  *)
+(*   exponents per chain are recorded); events carry the observation string as   *)
+(*   (na, b) = a^na followed by b iff b = 1, and the Viterbi path run-length     *)
+(*   encoded.  Same demands as for "gen", with MinExp / mantissa from the closed *)
+(*   form: viterbi = constant path of an optimal chain with exactly its          *)
+(*   exponent, forward = backward = sum over the chains within 0.5 %, never      *)
+(*   below the Viterbi maximum, zero iff every chain has probability zero.       *)
 EXTENDS HmmExp, Json, IOUtils
 
 Rec == ndJsonDeserialize(IOEnv.TRACE)
@@ -89,6 +96,32 @@ CycExplains(evs, k, p) ==
            /\ r.mant >= Pow2(MB) - 1 /\ r.mant <= Pow2(MB + 1)
       [] OTHER -> FALSE
 
+DecExplains(evs, k, p) ==
+    LET e == evs[k]  c == e.c  r == e.r IN
+    CASE c.op = "new" -> r.st = "ok" /\ DecValid(p)
+      [] c.op \in {"viterbi", "forward", "backward"} ->
+           /\ r.st = "ok" /\ Flags0(r)
+           /\ c.a.na >= 0 /\ c.a.b \in {0, 1} /\ c.a.na + c.a.b >= 1
+           /\ LET mn == DecMin(p, c.a.na, c.a.b)
+                  T  == c.a.na + c.a.b
+              IN  /\ (r.neginf = 1) <=> (mn >= INF)
+                  /\ mn < INF =>
+                       IF c.op = "viterbi"
+                       THEN /\ r.e = mn /\ r.dev <= 1000
+                            /\ Len(r.rle) = 1 /\ r.rle[1][2] = T               \* one constant run
+                            /\ r.rle[1][1] \in 0..(p.k - 1)
+                            /\ DecE(p, r.rle[1][1] + 1, c.a.na, c.a.b) = mn
+                       ELSE LET mt == DecMantissa(p, c.a.na, c.a.b, mn)
+                                pf == IF c.op = "backward" THEN k - 1 ELSE 0
+                            IN  /\ LikOK(r, mn, mt)
+                                /\ (pf >= 1 /\ evs[pf].c.op = "forward" /\ evs[pf].c.a = c.a
+                                     /\ evs[pf].r.st = "ok" /\ evs[pf].r.neginf = 0) =>
+                                      LET f == evs[pf].r
+                                          x == Scaled(r.mant, mn - r.k)  y == Scaled(f.mant, mn - f.k)
+                                          tol == (mt[1] \div 200) + Pow2(MaxShift) + 1
+                                      IN  mn - f.k >= -1 /\ mn - f.k <= MaxShift /\ x - y <= tol /\ y - x <= tol
+      [] OTHER -> FALSE
+
 \* For viterbi events the machine layer is run on the traced input: its value must be the
 \* path minimum (specification self-check: TLC error, never a VIOLATION); a reported path
 \* that is minimal but not the machine's path is DRIFT.
@@ -98,7 +131,9 @@ Next ==
            m    == Rec[run].cfg
            gen  == m.cls = "gen"
            mn   == IF gen /\ e.c.op \in {"viterbi", "forward", "backward"} THEN MinExp(m, e.c.a.obs) ELSE 0
-           good == IF gen THEN Explains(Rec[run].ev, idx + 1, m, mn) ELSE CycExplains(Rec[run].ev, idx + 1, m)
+           good == IF gen THEN Explains(Rec[run].ev, idx + 1, m, mn)
+                   ELSE IF m.cls = "dec" THEN DecExplains(Rec[run].ev, idx + 1, m)
+                   ELSE CycExplains(Rec[run].ev, idx + 1, m)
        IN  /\ ok' = good
            /\ IF ~good THEN PrintT(<<"REJECT", run, idx + 1>>)
               ELSE IF ~gen \/ e.c.op # "viterbi" THEN TRUE
